@@ -23,6 +23,24 @@ def sh(cmd, **kw):
     return subprocess.run(cmd, capture_output=True, text=True, **kw)
 
 
+def write_readme(sdir, results):
+    lines = ["# Seeded changes and the checks that catch them", "",
+             "Every change below keeps the crate compiling and the existing suite green (confirmed with tools/seedconfirm.sh; see each",
+             "meta.json). `caught by` lists every check that exits 1 with a VIOLATION when the patch is applied (quick tier unless noted;",
+             "only checks that were run against the change are listed - see RESULTS.json for the runs).", "",
+             "| seeded change | breaks | what it does | needs | caught by |", "|---|---|---|---|---|"]
+    for n in sorted(d for d in os.listdir(sdir) if os.path.isdir(os.path.join(sdir, d))):
+        try:
+            meta = json.load(open(os.path.join(sdir, n, "meta.json")))
+        except Exception:
+            continue
+        r = results.get(n, {})
+        cb = ", ".join(r.get("caught_by", [])) or "-"
+        esc = lambda x: str(x).replace("|", "\\|").replace("\n", " ")[:260]
+        lines.append(f"| {n} | {meta.get('property')} | {esc(meta.get('what'))} | {esc(meta.get('needs'))} | {cb} |")
+    open(os.path.join(sdir, "README.md"), "w").write("\n".join(lines) + "\n")
+
+
 def main():
     args = sys.argv[1:]
     all_checks = "--all-checks" in args
@@ -88,6 +106,7 @@ def main():
     if not scratch:
         # rebuild against the clean tree so that caches are warm and nothing from a mutant lingers
         sh([os.path.join(ROOT, "setup.sh")], cwd=ROOT)
+    write_readme(sdir, results)
     miss = [n for n in names if not results.get(n, {}).get("caught_by_target")]
     print("not caught by the target check:", miss)
     return 0
